@@ -136,4 +136,32 @@ theorem special_rejected_on_other_opcode (f : Func) (idx : Nat) (t : Tok) (x : I
     rcases hm with hm | hm | hm | ⟨hm, hb⟩ <;> simp [hm, hk, *]
   simp [this]
 
+/-- `FunctionModifier::add_instr_at` called directly: the operator goes to the list of the addressed instruction's own current mode,
+    whatever was selected last and whatever the function-level mode is; nothing else changes; a special mode marks the function -/
+theorem addInstrAt_spec (f f' : Func) (idx : Nat) (t : Tok) (h : apply f (.addInstrAt idx t) = some f') :
+    ∃ x x' sp, f.body[idx]? = some x ∧ x.addInstr t = some (x', sp) ∧ f'.body = f.body.set idx x'
+      ∧ f'.hasSpecial = (f.hasSpecial || sp) ∧ f'.fmode = f.fmode ∧ f'.entry = f.entry ∧ f'.exit = f.exit := by
+  simp only [apply] at h
+  cases hx : f.body[idx]? with
+  | none => simp [hx] at h
+  | some x =>
+    simp only [hx] at h
+    cases ha : x.addInstr t with
+    | none => simp [ha] at h
+    | some p =>
+      obtain ⟨i', sp⟩ := p
+      simp only [ha, Option.some.injEq] at h
+      subst h
+      exact ⟨x, i', sp, rfl, ha, rfl, rfl, rfl, rfl, rfl⟩
+
+theorem addInstrAt_special_marks (f f' : Func) (idx : Nat) (t : Tok) (x : Instr) (hx : f.body[idx]? = some x)
+    (hm : x.mode = some .semanticAfter ∨ x.mode = some .blockEntry ∨ x.mode = some .blockExit ∨ x.mode = some .blockAlt)
+    (h : apply f (.addInstrAt idx t) = some f') : f'.hasSpecial = true := by
+  obtain ⟨y, y', sp, hy, ha, _, hs, _⟩ := addInstrAt_spec f f' idx t h
+  rw [hx] at hy; cases hy
+  have : sp = true := by
+    unfold Instr.addInstr at ha
+    rcases hm with hm | hm | hm | hm <;> simp only [hm] at ha <;> split at ha <;> simp_all
+  rw [hs, this]; simp
+
 end Orca.Lower
